@@ -31,6 +31,7 @@ type fNode struct {
 	zero   bool // reflect IsZero of the leaf
 	keys   []string
 	kids   map[string]*fNode
+	nils   map[string]bool // struct-pointer fields that are nil: key -> omitempty
 }
 
 func fExtract(v reflect.Value, d *sDesc) *fNode {
@@ -78,6 +79,9 @@ func fFill(n *fNode, v reflect.Value, d *sDesc) {
 		}
 		if c := fExtract(fv, f.T); c != nil {
 			c.omit = f.Omit
+			if f.T.Kind == "ptr" {
+				c.omit = false // a non-nil pointer is never IsZero, so omitempty never drops it
+			}
 			if c.leaf {
 				c.zero = fv.IsZero()
 			}
@@ -85,6 +89,11 @@ func fFill(n *fNode, v reflect.Value, d *sDesc) {
 				n.keys = append(n.keys, f.Key)
 			}
 			n.kids[f.Key] = c
+		} else if f.T.Kind == "ptr" && f.T.Elem.Kind == "struct" && !f.T.Elem.Foreign && fv.IsNil() {
+			if n.nils == nil {
+				n.nils = map[string]bool{}
+			}
+			n.nils[f.Key] = f.Omit
 		}
 	}
 }
@@ -177,6 +186,14 @@ func (n *fNode) coqO(encoded bool) string {
 	it := make([]string, len(n.keys))
 	for i, k := range n.keys {
 		it[i] = "(" + vStr(k) + ", " + n.kids[k].coqO(encoded) + ")"
+	}
+	var nk []string
+	for k := range n.nils {
+		nk = append(nk, k)
+	}
+	sort.Strings(nk)
+	for _, k := range nk {
+		it = append(it, "("+vStr(k)+", ONil "+vBool(n.nils[k])+")")
 	}
 	return "ORec " + vBool(n.omit) + " " + vList(it)
 }
@@ -298,7 +315,13 @@ func dFaithful(t *testing.T, out *vOut, r *vRand, all []dEntryPts) {
 		// the both-written-with-different-values case of the repaired finding C13-BLOCKING-OVERRIDES
 		// (Coq: Witness.new_rule_keeps_written_sibling): the first otlp exporter case writes both keys
 		witness := i < len(comps) && e.Name == "exporters/otlp"
+		// replay of C13-NIL-SECTION-RENDERED-NULL: the first OTLP receiver case writes nothing below
+		// protocols::http, so that protocol stays nil
+		witnessNil := i < len(comps) && e.Name == "receivers/otlp"
 		for _, l := range cand {
+			if witnessNil && len(l.path) > 1 && l.path[1] == "http" {
+				continue
+			}
 			last := l.path[len(l.path)-1]
 			isW := witness && len(l.path) == 2 && l.path[0] == "sending_queue" && (last == "blocking" || last == "block_on_overflow")
 			if r.Intn(100) >= p && !isW {
@@ -368,7 +391,7 @@ func dFaithful(t *testing.T, out *vOut, r *vRand, all []dEntryPts) {
 		fComplex(reflect.ValueOf(e.Def), &sDesc{Kind: "ptr", Elem: e.D}, nil, &cpos)
 		out.Stat("faithful.complex.positions", len(cpos))
 		for _, cp := range cpos {
-			if fExcluded(cp.path) || r.Intn(100) >= p+15 {
+			if fExcluded(cp.path) || r.Intn(100) >= p+15 || witnessNil && len(cp.path) > 1 && cp.path[1] == "http" {
 				continue
 			}
 			w := cw{pos: cp}
@@ -398,7 +421,7 @@ func dFaithful(t *testing.T, out *vOut, r *vRand, all []dEntryPts) {
 			cws = append(cws, w)
 			out.Stat("faithful.complex."+cp.kind+map[bool]string{true: ".opaque", false: ""}[cp.opaque], 1)
 		}
-		if e.Name == "receivers/otlp" && r.Intn(3) == 0 { // a protocol section written empty
+		if e.Name == "receivers/otlp" && !witnessNil && r.Intn(3) == 0 { // a protocol section written empty
 			k := []string{"grpc", "http"}[r.Intn(2)]
 			if _, ok := fGetAny(doc, []string{"protocols", k}); !ok {
 				fSet(doc, []string{"protocols", k}, map[string]any{})
@@ -675,19 +698,24 @@ func dFaithful(t *testing.T, out *vOut, r *vRand, all []dEntryPts) {
 						}
 					}
 				}
-				// Part 7 has no nil pointers: a section that is nil in the typed configuration but not in
-				// the defaults (an OTLP receiver protocol that was not written) is encoded as `key: null`
-				// and comes back with its defaults when the effective configuration is loaded again —
-				// outside the model (compat excludes it), counted here
-				if fShape(def) != fShape(obs) {
-					out.Stat("round.skipped-nil-section", 1)
-					if fShape(obs2) != fShape(obs) {
-						out.Stat("round.nil-section-resurrected", 1)
+				// a section that is nil in the typed configuration but comes back (with its defaults) when
+				// the effective configuration is loaded: the effective configuration wrote `key: null`, which
+				// in the collector's configuration language means "present with defaults"
+				if fShape(obs2) != fShape(obs) {
+					var l2 []fLeaf
+					obs2.leaves(nil, &l2)
+					for _, l := range l2 {
+						if obs.get(l.path) == nil {
+							sec := strings.Join(l.path[:len(l.path)-1], "::")
+							ev, present := fGetAny(effMap, append([]string{e.Kind, id.String()}, l.path[:len(l.path)-1]...))
+							out.Oracle("effective-config-resurrects-nil-section", rterm+"(VRec []))", fmt.Sprintf("%s is nil in the typed configuration, the effective configuration has it as %v (present=%v), and loading the effective configuration enables it with defaults", sec, ev, present))
+							out.Stat("round.nil-section-resurrected", 1)
+							break
+						}
 					}
-				} else {
-					out.Case(true, rterm+"("+obs2.coq()+"))")
-					out.Stat("round.cases", 1)
 				}
+				out.Case(true, rterm+"("+obs2.coq()+"))")
+				out.Stat("round.cases", 1)
 			}
 		}
 		// every nested validation rule of the loaded configuration is evaluated
